@@ -238,7 +238,7 @@ MC_FEATURES = {"print", "glue", "tags", "icond", "iseq", "set", "temp", "block_i
                "counts", "turns", "loops", "tunnels", "threads", "functions", "labels", "done", "nested", "faults"}
 
 
-MC_INVARIANTS = ("LookAheadIsInvisible", "MessagesOnce", "SwitchAwayAndBack", "OthersUntouched", "SaveLoadIdentity", "ResetIsInitial",
+MC_INVARIANTS = ("LookAheadIsInvisible", "MessagesOnce", "SwitchAwayAndBack", "OthersUntouched", "EvalLeavesTheStoryAlone", "SaveLoadIdentity", "ResetIsInitial",
                  "RefusedIsNoOp")
 
 
